@@ -73,3 +73,124 @@ def indivPooled (legacy : Bool) (st : St α) (free : List α) : St α × Result 
     (some c', if legacy then .viewOfBuffer else .own (c'.map (·.2)))
 
 end ChiModel.Purity
+
+/-! ## evaluations interleaved with re-configuration: the reduced mechanistic model's sensitivity set-up
+
+`ReducedMechanisticModel` (chi/_mechanistic_models.py): `enable_sensitivities` asks the wrapped model for the
+sensitivities with respect to the names that are free AT THAT MOMENT; `fix_parameters` therefore repeats the
+request whenever sensitivities are on; `simulate` overwrites the free cells of the value buffer. -/
+namespace ChiModel.Purity
+open ChiModel.Reduced
+variable {α β : Type}
+
+/-- hidden state of a reduced mechanistic model together with the wrapped model's switch -/
+structure MSt (α : Type) where
+  /-- mask + value buffer (`None` when nothing is fixed) -/
+  cfg : St α
+  /-- the wrapped model: `none` = sensitivities off, `some ns` = on, with respect to the names `ns` -/
+  inner : Option (List String)
+  /-- `_empty_sensitivities`: on, but every parameter is fixed (the wrapped model is switched off) -/
+  empty : Bool
+
+def MSt.init : MSt α := ⟨none, none, false⟩
+
+/-- `names[~mask]` -/
+def freeOf (names : List String) (garbage : α) (st : St α) : List String :=
+  restrict (view names garbage st) names
+
+/-- `has_sensitivities()` -/
+def MSt.hasSens (m : MSt α) : Bool := m.empty || m.inner.isSome
+
+/-- `enable_sensitivities(enabled)` -/
+def enableM (names : List String) (garbage : α) (m : MSt α) (enabled : Bool) : MSt α :=
+  if !enabled then { m with inner := none, empty := false } else
+  let fr := freeOf names garbage m.cfg
+  if fr.isEmpty then { m with inner := none, empty := true } else { m with inner := some fr, empty := false }
+
+/-- `fix_parameters(d)`: mask / buffer update, then "remove sensitivities for fixed parameters" -/
+def fixM (names : List String) (garbage : α) (m : MSt α) (d : Req α) : MSt α :=
+  let m' := { m with cfg := fixStep names garbage m.cfg d }
+  if m'.hasSens then enableM names garbage m' true else m'
+
+/-- the seeded shortcut: repeat the sensitivity set-up only when the NUMBER of free parameters changed -/
+def fixMCount (names : List String) (garbage : α) (m : MSt α) (d : Req α) : MSt α :=
+  let m' := { m with cfg := fixStep names garbage m.cfg d }
+  if m'.hasSens && (freeOf names garbage m.cfg).length != (freeOf names garbage m'.cfg).length
+  then enableM names garbage m' true else m'
+
+/-- the columns of the sensitivity array `simulate` returns now: `none` = no sensitivities,
+    `some ns` = one column per name in `ns` (an empty block when everything is fixed) -/
+def MSt.columns (m : MSt α) : Option (List String) := if m.empty then some [] else m.inner
+
+/-- `simulate(free, times)`: what the wrapped model is asked (full vector, sensitivity columns), and the
+    state afterwards (free cells of the buffer overwritten) -/
+def simM (names : List String) (garbage : α) (m : MSt α) (free : List α) : MSt α × (List α × Option (List String)) :=
+  ({ m with cfg := (evalStep m.cfg (fun x => x) free).1 }, (evalFresh m.cfg (fun x => x) free, m.columns))
+
+/-- what callers do to one reduced mechanistic model -/
+inductive MOp (α : Type) where
+  | fix (d : Req α)
+  | sens (enabled : Bool)
+  | sim (free : List α)
+
+def MOp.isSim : MOp α → Bool
+  | .sim _ => true
+  | _ => false
+
+def stepM (names : List String) (garbage : α) (m : MSt α) : MOp α → MSt α
+  | .fix d => fixM names garbage m d
+  | .sens b => enableM names garbage m b
+  | .sim free => (simM names garbage m free).1
+
+def runM (names : List String) (garbage : α) (m : MSt α) (p : List (MOp α)) : MSt α :=
+  p.foldl (stepM names garbage) m
+
+/-- outputs of all `sim` steps of a program -/
+def outsM (names : List String) (garbage : α) : MSt α → List (MOp α) → List (List α × Option (List String))
+  | _, [] => []
+  | m, .sim free :: rest => (simM names garbage m free).2 :: outsM names garbage (simM names garbage m free).1 rest
+  | m, op :: rest => outsM names garbage (stepM names garbage m op) rest
+
+/-- the likelihood on top: `evaluateS1` switches on only if `has_sensitivities()` is false, `__call__` /
+    pointwise switch off only if it is true; then `simulate` -/
+def llEvalM (names : List String) (garbage : α) (m : MSt α) (op : LLOp) (free : List α) :
+    MSt α × (List α × Option (List String)) :=
+  let want := llStep m.hasSens op
+  let m' := if m.hasSens == want then m else enableM names garbage m want
+  simM names garbage m' free
+
+end ChiModel.Purity
+
+namespace ChiModel.Purity
+open ChiModel.Reduced
+variable {α β : Type}
+
+/-- what callers do to one likelihood (its reduced mechanistic model): re-configure, or evaluate -/
+inductive LOp (α : Type) where
+  | fix (d : Req α)
+  | eval (op : LLOp) (free : List α)
+
+def LOp.isFix : LOp α → Bool
+  | .fix _ => true
+  | _ => false
+
+def stepL (names : List String) (garbage : α) (m : MSt α) : LOp α → MSt α
+  | .fix d => fixM names garbage m d
+  | .eval op free => (llEvalM names garbage m op free).1
+
+def runL (names : List String) (garbage : α) (m : MSt α) (p : List (LOp α)) : MSt α :=
+  p.foldl (stepL names garbage) m
+
+/-- the same with the seeded shortcut in `fix_parameters` -/
+def stepLCount (names : List String) (garbage : α) (m : MSt α) : LOp α → MSt α
+  | .fix d => fixMCount names garbage m d
+  | .eval op free => (llEvalM names garbage m op free).1
+
+/-- results of all evaluations of a program -/
+def outsL (names : List String) (garbage : α) : MSt α → List (LOp α) → List (List α × Option (List String))
+  | _, [] => []
+  | m, .eval op free :: rest =>
+    (llEvalM names garbage m op free).2 :: outsL names garbage (llEvalM names garbage m op free).1 rest
+  | m, .fix d :: rest => outsL names garbage (fixM names garbage m d) rest
+
+end ChiModel.Purity
